@@ -1,16 +1,19 @@
 #!/bin/bash
 # usage: run_seed.sh <seed id> <property> [<property> ...]
-# Applies seeded/<id>/patch.diff to /repo, runs the quick checks, reverts.  Output: one line per check.
-cd /verif
+# Applies seeded/<id>/patch.diff to the repository under test (VERIF_REPO, default /repo), runs the quick checks of this
+# copy of the framework, reverts.  Output: one line per check.
+V=$(cd "$(dirname "$0")/.." && pwd)
+R=${VERIF_REPO:-/repo}
+cd "$V"
 S=$1; shift
-git -C /repo diff --quiet || { echo "/repo not clean"; exit 2; }
-git -C /repo apply /verif/seeded/$S/patch.diff || { echo "apply failed"; exit 2; }
-mkdir -p /tmp/seedrun
+git -C "$R" diff --quiet || { echo "$R not clean"; exit 2; }
+git -C "$R" apply "$V/seeded/$S/patch.diff" || { echo "apply failed"; exit 2; }
+T=${TMPDIR:-/tmp}/seedrun.$(basename "$V").$$
+mkdir -p "$T"
 for P in "$@"; do
-  ./check $P --tier quick > /tmp/seedrun/$S.$P.out 2> /tmp/seedrun/$S.$P.err; rc=$?
-  v=$(grep -c '^VIOLATION' /tmp/seedrun/$S.$P.out)
-  echo "$S $P rc=$rc $(grep '^VIOLATION' /tmp/seedrun/$S.$P.out | head -2 | tr '\n' ' ')"
+  ./check $P --tier quick > "$T/$S.$P.out" 2> "$T/$S.$P.err"; rc=$?
+  echo "$S $P rc=$rc $(grep '^VIOLATION' "$T/$S.$P.out" | head -2 | tr '\n' ' ')"
 done
-for i in 1 2 3 4 5; do git -C /repo checkout -- . && break; sleep 1; done
-./bin/goextract /repo coq/gen
-(cd /verif/harness && GOFLAGS=-mod=mod GOPROXY=off GOSUMDB=off GOTOOLCHAIN=local CGO_ENABLED=0 go build -tags verif -o ../bin/harness .)
+rm -rf "$T"
+for i in 1 2 3 4 5; do git -C "$R" checkout -- . && break; sleep 1; done
+./bin/goextract "$R" coq/gen > /dev/null
